@@ -20,6 +20,11 @@ type AtomRow struct {
 	N     int      // count kinds: the argument
 	Set   []string // set kinds: the argument list (as strings)
 	Class string   // "value", "count", "set", "cmp"
+	// TableOnly rows are confirmed by the table self-test but never drawn by the formula generators
+	TableOnly bool
+	// Finding names a recorded defect this row documents: a satisfying witness with a fractional number that the
+	// validator reports all the same carries this signature instead of the generic one (see known_findings.json)
+	Finding string
 }
 
 func strs(ss ...string) []Lit {
@@ -32,6 +37,17 @@ func strs(ss ...string) []Lit {
 
 // AtomTable lists every documented atomic constraint kind with boundary witnesses.
 var AtomTable = buildAtomTable()
+
+// DrawableRows are the indexes of the rows a formula generator may draw.
+var DrawableRows = func() []int {
+	var out []int
+	for i, r := range AtomTable {
+		if !r.TableOnly {
+			out = append(out, i)
+		}
+	}
+	return out
+}()
 
 func buildAtomTable() []AtomRow {
 	t := []AtomRow{
@@ -78,6 +94,27 @@ func buildAtomTable() []AtomRow {
 		AtomRow{Kind: "equalsToProperty", Class: "cmp"},
 		AtomRow{Kind: "disjointWithProperty", Class: "cmp"},
 	)
+	// rows added later go last: replay files refer to rows by index
+	t = append(t,
+		AtomRow{Kind: "datatype", Arg: YStr("xsd.float"), Sat: []Lit{Fl(1.5), I(2)}, Viol: []Lit{S("1.5"), B(false)}, Class: "value"},
+		AtomRow{Kind: "datatype", Arg: YStr("xsd.date"), Sat: []Lit{Typed("2020-01-01", XSD+"date")}, Viol: []Lit{S("2020-01-01"), I(5), Typed("12:00:00", XSD+"time")}, Class: "value"},
+		// empty argument lists: nothing is required (containsAll), nothing can be found (containsSome), no value is
+		// allowed (in). They cannot take both truth values, so only the table self-test uses them.
+		AtomRow{Kind: "containsAll", Arg: YSeq(), Set: []string{}, Class: "set", TableOnly: true},
+		AtomRow{Kind: "containsSome", Arg: YSeq(), Set: []string{}, Class: "set", TableOnly: true},
+		AtomRow{Kind: "in", Arg: YSeq(), Viol: []Lit{S("a"), S(""), I(0)}, Class: "value", TableOnly: true},
+		// boundary arguments
+		AtomRow{Kind: "maxCount", Arg: YInt(0), N: 0, Class: "count"},
+		AtomRow{Kind: "exactCount", Arg: YInt(0), N: 0, Class: "count"},
+		AtomRow{Kind: "minCount", Arg: YInt(0), N: 0, Class: "count", TableOnly: true},
+		AtomRow{Kind: "maxLength", Arg: YInt(0), Sat: strs(""), Viol: strs("a", " "), Class: "value"},
+		AtomRow{Kind: "minLength", Arg: YInt(0), Sat: strs("", "a"), Class: "value", TableOnly: true},
+		AtomRow{Kind: "pattern", Arg: YStr(""), Sat: strs("", "abc"), Class: "value", TableOnly: true},
+		AtomRow{Kind: "minInclusive", Arg: YInt(-5), Sat: []Lit{I(-5), I(0), Fl(-4.5)}, Viol: []Lit{I(-6), Fl(-5.5)}, Class: "value"},
+		AtomRow{Kind: "maxInclusive", Arg: YFloat(-0.5), Sat: []Lit{I(-1), Fl(-0.5)}, Viol: []Lit{I(0), Fl(-0.25)}, Class: "value"},
+		AtomRow{Kind: "in", Arg: YSeq(YFloat(1.5), YFloat(2.5)), Sat: []Lit{Fl(1.5), Fl(2.5)}, Viol: []Lit{Fl(3.5), I(1), I(2)}, Class: "value", TableOnly: true, Finding: "c01-list-argument-fractional-number"},
+		AtomRow{Kind: "in", Arg: YSeq(YStr("")), Sat: strs(""), Viol: strs("a", " "), Class: "value"},
+	)
 	return t
 }
 
@@ -117,7 +154,7 @@ func (a *Atom) NeedsSingle() bool {
 }
 
 // SetPool is the pool of values a set-kind atom's property draws from.
-var SetPool = []Lit{S("a"), S("b"), S("c"), S("d"), I(1), I(7)}
+var SetPool = []Lit{S("a"), S("b"), S("c"), S("d"), I(1), I(7), S("")}
 
 // CmpPool is the pool for comparison atoms.
 var CmpPool = []Lit{I(1), I(2), I(3)}
